@@ -22,6 +22,8 @@ def nin(cfg):
         return 0
     if cfg["kind"] == "New":
         return 1
+    if cfg["kind"] == "Pipeline" and not cfg["inputs"]:
+        return 0
     return len(cfg["inputs"])
 
 
